@@ -6,7 +6,7 @@ from typing import Dict, List, Optional, Set
 
 from . import astu
 from .facts import Run, cond_pol
-from .interp import Ctx, Frame, analyse_method
+from .interp import Ctx, Frame, analyse_function, analyse_method
 from .model import AnalysisError, iter_functions
 from .report import RuleResult
 from .terms import Const, Sym
@@ -68,7 +68,6 @@ def _paths_of(run: Run, m, fn, ci):
     key = ("paths_of", m.name, id(fn))
     if key in run._rule_cache:
         return run._rule_cache[key]
-    from .interp import analyse_function
     decos = [ast.unparse(d) for d in fn.decorator_list]
     if ci is not None and "staticmethod" not in decos and "classmethod" not in decos:
         ps = analyse_function(Ctx(run.repo), m, fn, cls=ci)
@@ -242,7 +241,6 @@ def _fn_paths(run: Run, fn, ci):
     """Paths of a function of labrea/runtime.py; methods are analysed with their class so that
     private methods they call through self are inlined."""
     m, _ = _rt(run)
-    from .interp import analyse_function
     decos = [ast.unparse(d) for d in fn.decorator_list]
     if ci is not None and "staticmethod" not in decos and "classmethod" not in decos:
         return analyse_function(Ctx(run.repo), m, fn, cls=ci)
@@ -828,8 +826,19 @@ def rule_LS(run: Run) -> RuleResult:
         raise AnalysisError(f"lock registry module {LOCKS_MODULE} not found")
     L_KEY = f"global<{LOCKS_MODULE}.{LOCKS_TABLE}>"
     LL_KEY = f"global<{LOCKS_MODULE}.{LOCKS_LOCK}>"
+    # the registry is one way of giving every object its lock; a lock made in the constructor (and re-made on unpickling,
+    # R-PL) is another — then there is no shared table to guard
+    has_registry = bool(_find_lock_registry(run))
+    if not has_registry:
+        init_o = ov.methods.get("__init__")
+        own = init_o is not None and any(e.kind == "store" and len(e.args) == 2 and e.args[0].key() == "self" and isinstance(e.args[1], Const) and e.target is not None
+                                         and "Lock" in e.target.key() and "global<" not in e.target.key()
+                                         for p in analyse_function(Ctx(repo), ov.module, init_o, cls=ov) for e in p.events)
+        if not own:
+            raise AnalysisError(f"no access of the lock registry {LOCKS_TABLE} found and Overloaded.__init__ makes no lock of its own (anchor vanished)")
+        res.notes.append("no registry of per-object locks: Overloaded.__init__ makes the object's own lock")
     seen = {}
-    for q, fn, ci in _entries_of(run, om) + [(q_, fi_.node, None) for q_, fi_ in repo.functions.items() if fi_.module is om and fi_.node.name == GET_LOCK]:
+    for q, fn, ci in ([] if not has_registry else _entries_of(run, om) + [(q_, fi_.node, None) for q_, fi_ in repo.functions.items() if fi_.module is om and fi_.node.name == GET_LOCK]):
         for p in _paths_of(run, om, fn, ci):
             for e, meth, key, val, wr in _table_events(p, L_KEY):
                 s = seen.setdefault((_owner_of(run, e.line, q, om), e.line), [True, ()])
@@ -837,7 +846,7 @@ def rule_LS(run: Run) -> RuleResult:
                 s[1] = e.held
     for (o, line), (ok, held) in sorted(seen.items()):
         res.add(f"{o}:access to {LOCKS_TABLE} under {LOCKS_LOCK}", ok, om.relpath, line, f"held: {list(held)}", nec)
-    if not seen:
+    if not seen and has_registry:
         raise AnalysisError(f"no access of the lock registry {LOCKS_TABLE} found (anchor vanished)")
     # the overload table of an Overloaded object is replaced only while its own lock is held
     from .rules_switch import _lock_attrs
@@ -884,7 +893,6 @@ def rule_LS(run: Run) -> RuleResult:
     gl = repo.functions.get(f"{LOCKS_MODULE}.{GET_LOCK}")
     ok = False
     if gl is not None:
-        from .interp import analyse_function
         k = astu.param_names(gl.node, skip_self=False)[0]
         L = f"global<{LOCKS_MODULE}.{LOCKS_TABLE}>"
         gps = analyse_function(Ctx(repo), gl.module, gl.node)
@@ -898,8 +906,9 @@ def rule_LS(run: Run) -> RuleResult:
             # the returned lock is the registry's entry for the key: read from it, put there by setdefault, or just stored under the key
             if not (rk.startswith(f"call:setdefault({L},{k},") or rk == f"getitem({L},{k})" or rk.startswith(f"call:get({L},{k}") or rk in stored):
                 ok = False
-    res.add("labrea.overload._get_lock:one lock per key, kept in the registry", ok, om.relpath, gl.node.lineno if gl else 0,
-            "the returned lock is the registry's entry for the key", nec)
+    if has_registry:
+        res.add("labrea.overload._get_lock:one lock per key, kept in the registry", ok, om.relpath, gl.node.lineno if gl else 0,
+                "the returned lock is the registry's entry for the key", nec)
     return res
 
 
@@ -942,7 +951,6 @@ def rule_CW(run: Run) -> RuleResult:
     reg = ov.methods.get("register")
     if reg is None:
         raise AnalysisError("Overloaded.register not found")
-    from .interp import analyse_function
     rps = analyse_function(Ctx(repo), ov.module, reg, cls=ov)
     ps_ = astu.param_names(reg)
     ok = bool(rps)
@@ -957,9 +965,45 @@ def rule_CW(run: Run) -> RuleResult:
         k = st[0].target.key()
         d = d or k
         # a fresh dictionary seeded with the old table that also maps key -> value (display, dict(...)/copy() + item store)
-        if not (k.startswith("dict(") and "dstar(attr:lookup(self))" in k and f"item({ps_[0]},{ps_[1]})" in k and k.index("dstar(attr:lookup(self))") < k.index(f"item({ps_[0]},{ps_[1]})")):
+        # … whose added entries map the key (or every alias of a collection of keys) to the value given (as it is, or ensured)
+        added = [f"item({ps_[0]},{ps_[1]})", f"item({ps_[0]},New(Value;value={ps_[1]}))", f"dstar(Coll({ps_[1]}))", f"dstar(Coll(New(Value;value={ps_[1]})))"]
+        hit = next((a_ for a_ in added if a_ in k), None)
+        if not (k.startswith("dict(") and "dstar(attr:lookup(self))" in k and hit is not None and k.index("dstar(attr:lookup(self))") < k.index(hit)):
             ok, d = False, k
     res.add("labrea.overload.Overloaded.register:assigns a fresh table {**self.lookup, key: value}", ok, ov.module.relpath, reg.lineno, d[:120], nec)
+    # a key is one key: register() may take a *collection* of keys apart only when that collection cannot be a key itself (a
+    # list, a set); a tuple or a frozenset is hashable — the natural key of a dispatch over two options — and is registered whole
+    import re as _re_k
+    split_ok, split_d, n_split = True, "the key is registered as it is", 0
+    for p in rps:
+        st = [e for e in p.events if e.kind == "store" and len(e.args) == 2 and e.args[0].key() == "self" and e.args[1].key() == Const("lookup").key() and e.target is not None]
+        if not st:
+            continue
+        # the keys of the added entries: the key itself, or elements drawn from it
+        from .interp import Coll as _Coll
+
+        def key_terms(t, out):
+            if isinstance(t, _Coll) and t.keyterm is not None:
+                out.append(t.keyterm.key())
+            for a_ in list(getattr(t, "args", ()) or ()) + list(getattr(t, "items", ()) or ()):
+                key_terms(a_, out)
+            return out
+        kts = key_terms(st[0].target, [])
+        if not any(f"elem({ps_[0]})" in k_ or f"elem(tuple({ps_[0]}))" in k_ or f"elem(list({ps_[0]}))" in k_ for k_ in kts):
+            continue
+        n_split += 1
+        kinds = set()
+        for k_, pol_ in Frame.atoms(p.conds).items():
+            m_ = _re_k.match(r"call:isinstance\(" + _re_k.escape(ps_[0]) + r",(.*)\)$", k_)
+            if m_ and pol_ is True:
+                kinds |= {x.split(".")[-1] for x in _re_k.findall(r"(?:name|class|ext)<([^>]+)>", m_.group(1))}
+        if not kinds or not kinds <= {"list", "set"}:
+            split_ok = False
+            split_d = f"the key is taken apart when it is a {sorted(kinds) or 'anything iterable'}: a tuple / frozenset key would be registered element by element"
+        elif split_ok:
+            split_d = f"taken apart only when it is a {sorted(kinds)} (unhashable, never a key itself)"
+    res.add("labrea.overload.Overloaded.register:a hashable key is registered whole", split_ok, ov.module.relpath, reg.lineno, split_d,
+            "an implementation registered under the elements of a tuple key is never selected by a dispatch that evaluates to that tuple (C05, C07)")
     ds = repo.cls("Dataset")
     r2 = ds.methods.get("register")
     ok = False
